@@ -29,6 +29,10 @@ def main():
     a = ap.parse_args()
     d = os.path.abspath(a.dir)
     patch = os.path.join(d, "patch.diff")
+    # a repository fix made after the change was produced may touch the same lines: the same change re-applied by hand to the
+    # current tree is kept next to the original as patch.rebased.diff
+    if os.path.exists(os.path.join(d, "patch.rebased.diff")):
+        patch = os.path.join(d, "patch.rebased.diff")
     demo = os.path.join(d, "demo.py")
     scratch = tempfile.mkdtemp(prefix="tlvseed_", dir="/dev/shm")
     res = {"dir": d}
@@ -40,6 +44,7 @@ def main():
             print(json.dumps(res))
             return 2
         res["patch"] = "applied"
+        res["patch_file"] = os.path.basename(patch)
         env = dict(os.environ, PYTHONDONTWRITEBYTECODE="1", PYTHONWARNINGS="ignore")
         if os.path.exists(demo):
             r0 = subprocess.run(["/venv/bin/python", demo], cwd="/repo", env=dict(env, PYTHONPATH="/repo"), capture_output=True, text=True, timeout=1800)
